@@ -188,7 +188,7 @@ class C(S):
     """Time-coherence operator"""
 
     def __init__(self, tau, *, duration=None, **kwargs):
-        tau = common.map_arrays(tau)
+        tau = common.map_arrays([tau])[0]
 
         if np.any(tau < 0):
             raise ValueError("Cannot have negative time")
